@@ -110,8 +110,12 @@ def run(ck):
     for fn, s in aggs:
         fields = s["rv"]["fields"]
         e = df.operand_expr(fn, s["rv"]["ops"][fields.index("dry_run")])
-        good = (isinstance(e, tuple) and e[0] == "call" and e[1].endswith("Matches::opt_present")
-                and any(a == ("const", "dry-run", "&str") or (isinstance(a, tuple) and a[0] == "const" and a[1] == "dry-run") for a in e[2]))
+        # the options may reach this function as a struct the caller filled in
+        alts = [x for g, x in (df.param_field_sources(prog, fn, e) or [(fn, e)])]
+        good = all(isinstance(x, tuple) and x[0] == "call" and x[1].endswith("Matches::opt_present")
+                   and any(a == ("const", "dry-run", "&str") or (isinstance(a, tuple) and a[0] == "const" and a[1] == "dry-run") for a in x[2]) for x in alts)
+        if alts and alts != [e]:
+            e = alts[0]
         ck.require(good, "C10-R2", "dry_run := opt_present(\"dry-run\")",
                    "ApplyConfig.dry_run is initialised from %s" % df.show(e), fn.where(s))
 
